@@ -381,9 +381,10 @@ def run(facts, cg):
         sizers = [bi for bi, t in b.calls() if 'q' in t['callee'] and callee_q(t).startswith('bytes::bytes_mut::BytesMut::') and
                   callee_q(t).split('::')[-1] in ('resize', 'truncate', 'split_to', 'set_len') and len(t['args']) > 1 and
                   has_field(simplify(T.of_operand(b, t['args'][1])), 'size')]
+        ret_locals = {0} | {f_['locals'][0] for f_ in (b.raw.get('inlined') or [])}      # (the helper may have been inlined into poll_next)
         for bi in b.live:
             for st in b.blocks[bi]['stmts']:
-                if st['k'] == 'assign' and not st['pl']['p'] and st['pl']['l'] == 0 and st['rv']['k'] == 'agg' and st['rv'].get('vname') == 'Ready':
+                if st['k'] == 'assign' and not st['pl']['p'] and st['pl']['l'] in ret_locals and st['rv']['k'] == 'agg' and st['rv'].get('vname') == 'Ready':
                     term = simplify(T.of_operand(b, st['rv']['ops'][0]))
                     if not any(n[0] == 'agg' and n[2] == 'Ok' for n in walk(term)):
                         continue
